@@ -141,6 +141,18 @@ def _apply(m, ev, D):
                 m.set_params(**{ev[1]: ev[2]})
             elif kind == "clone":
                 m = clone(m)
+            elif kind == "fit_bad":           # refused calls: non-finite data, data of another width for predict; with warnings as errors
+                Xb = D["X1"].copy()
+                Xb[0, 0] = np.nan
+                with warnings.catch_warnings():
+                    warnings.simplefilter("error")
+                    m.fit(Xb, D["y1"])
+            elif kind == "predict_bad":
+                m.predict(D["X1"][:, :1])
+            elif kind == "path_bad":
+                with warnings.catch_warnings():
+                    warnings.simplefilter("error")
+                    m.path(D["X1"], D["y1"], alpha_multiplier=0.5, min_features=0, keep_threshold=2.0, max_patience=1)
             elif kind == "pickle":
                 import pickle
                 m = pickle.loads(pickle.dumps(m))
@@ -189,7 +201,7 @@ def history_search(case):
             pre_violations.append(("clone_does_not_round_trip_hyperparameters", {"error": repr(e)[:300]}))
     D = {"X1": X1, "X2": X2, "X3": X3, "y1": y1, "y2": y2, "y3": y3}
     pristine = {k: (None if v is None else v.copy()) for k, v in D.items()}
-    events = [("fit1",), ("fit2",), ("fit3",), ("fit_predict1",), ("predict1",), ("score1",)]
+    events = [("fit1",), ("fit2",), ("fit3",), ("fit_predict1",), ("predict1",), ("score1",), ("fit_bad",), ("predict_bad",)]
     if y1 is not None:
         events += [("fit1_noy",), ("score1_noy",)]
     if not decorated:
@@ -201,7 +213,7 @@ def history_search(case):
         if name in M.BATCHED:
             events += [("set",) + e for e in SET_EVENTS["batched"]]
         if name in M.SPARSE:
-            events += [("set",) + e for e in SET_EVENTS["sparse"]] + [("path1",)]
+            events += [("set",) + e for e in SET_EVENTS["sparse"]] + [("path1",), ("path_bad",)]
         if hasattr(m0, "ovo"):
             events.append(("set", "ovo", not m0.ovo))
         if hasattr(m0, "kernel") and y1 is None:
